@@ -185,6 +185,8 @@ BranchName(C) ==
          "a" \o SignChar(a) \o "," \o (IF b.s = -1 THEN (IF FitsWord(b) THEN "count<0" ELSE "count<0,beyond-word")
                                         ELSE IF IsSmallN(b.m) THEN "count<2^30" ELSE IF FitsWord(b) THEN "count>=2^30" ELSE "count>=2^63")
     [] op \in TextOps -> "base=" \o ToString(C.base) \o ",valid=" \o (IF ParseValid(C.txt, IF op = "lit" THEN 0 ELSE C.base) THEN "1" ELSE "0")
+                         \o (LET s0 == StripWs(C.txt) s1 == IF s0 # <<>> /\ s0[1] \in {43, 45} THEN Tail(s0) ELSE s0 IN   \* the base-0 rule about leading zeros
+                             IF C.base = 0 /\ Len(s1) > 1 /\ s1[1] = 48 /\ s1[2] \in 48..57 THEN ",leading-zero" ELSE "")
     [] op \in UnaryOps -> "a" \o SignChar(a)
     [] OTHER -> "a" \o SignChar(a) \o ",b" \o SignChar(b)
 ResultRepName(e) ==
